@@ -2,6 +2,7 @@ import Qhttp.Model.RouteScn
 import Qhttp.Props.C01
 import Qhttp.Lemmas.RouteSubst
 import Qhttp.Lemmas.RouteLemmas
+import Qhttp.Lemmas.RouteWire
 /-
   C05 — routing picks exactly one action, in the documented order.
 -/
@@ -322,11 +323,7 @@ theorem route_shape (m : Matcher) (n : Node) (path : QStr) :
     ∃ pre : List (Nat × Bool), allAccept pre = true ∧
       ((∃ t, isTerminalAct t = true ∧ route m n path = pre.map mwAct ++ [t] ∧ noRefusal (route m n path) = true) ∨
        (∃ id, route m n path = pre.map mwAct ++ [.mw id false] ∧ noRefusal (route m n path) = false)) := by
-  have hn := noRefusal_route m n path
-  rw [hn, route_struct, tailOf]
-  rcases ttfr_cases (chain m n path) with ⟨h1, h2⟩ | ⟨h1, pre, i, h2, h3⟩
-  · exact ⟨chain m n path, h1, Or.inl ⟨termOf m n path, termOf_terminal m n path, by simp [h1, h2], h1⟩⟩
-  · exact ⟨pre, h2, Or.inr ⟨i, by simp [h1, h3, mwAct], h1⟩⟩
+  exact route_cases m n path
 
 /-- **C05.1** at most one terminal action (`.redirect` / `.process`), it is the last element,
     there is exactly one iff no consulted middleware refused, and every other element is `.mw` -/
@@ -505,6 +502,271 @@ theorem encodeLoc_clean (loc : QStr) :
   have h := pctEncode_mem locKeep _ b hb
   refine ⟨h, ?_, ?_, ?_⟩ <;> (intro e; subst e; revert h; decide)
 
+/-! ### 5. end to end: the predicate the driver evaluates, on every run of the model -/
+
+/-- the last element of a routing run: a terminal action or a refusal -/
+def isLastAct : Act → Bool
+  | .mw _ ok => !ok
+  | _ => true
+
+theorem accepted_iff (env : Env) (sc : RouteScn) :
+    accepted env sc = true ↔ ∃ head rest rh p q, breakOn CRLF2 sc.stream = some (head, rest) ∧
+      Parser.parseRequestHeaders head [] = some rh ∧ env.url rh.rawPath = some (p, q) := by
+  unfold accepted C01.headOf
+  constructor
+  · intro h
+    cases hb : breakOn CRLF2 sc.stream with
+    | none => simp [hb] at h
+    | some hr =>
+      obtain ⟨head, rest⟩ := hr
+      simp only [hb, Option.map_some] at h
+      obtain ⟨s, hs⟩ := Option.isSome_iff_exists.1 h
+      obtain ⟨rh, p, q, h1, h2, _⟩ := (C01.expect_eq_some_iff _ _ _).1 hs
+      exact ⟨head, rest, rh, p, q, rfl, h1, h2⟩
+  · rintro ⟨head, rest, rh, p, q, hb, h1, h2⟩
+    simp only [hb, Option.map_some]
+    exact Option.isSome_iff_exists.2 ⟨_, (C01.expect_eq_some_iff _ _ _).2 ⟨rh, p, q, h1, h2, rfl⟩⟩
+
+theorem stream_breaks (sc : RouteScn) : ∃ head rest, breakOn CRLF2 sc.stream = some (head, rest) := by
+  have : (breakOn CRLF2 sc.stream).isSome := by
+    rw [breakOn_isSome_iff]
+    exact ⟨lit ['G','E','T',' '] ++ sc.raw ++ lit [' ','H','T','T','P','/','1','.','1'], [], by simp [RouteScn.stream]⟩
+  obtain ⟨⟨h, r⟩, e⟩ := Option.isSome_iff_exists.1 this
+  exact ⟨h, r, e⟩
+
+/-- **the history of an accepted routed request**: the event markers, `headersParsed`, one
+    observation per accepting middleware, then what the last routing action does (or the
+    Server's 500 when there is no root handler) -/
+theorem run_log (env : Env) (sc : RouteScn) (hacc : accepted env sc = true) :
+    match sc.root with
+    | none =>
+      (Scenario.run env sc.scenario).log = [.ev 0, .ev 1, .hp] ++
+        ([.w (headOf 500 (statusReason 500) (errHeaders [] (env.errPage 500 (statusReason 500)).length))] ++
+          wObs (env.errPage 500 (statusReason 500)) ++ [.tc]) ++ [.ev 2]
+    | some r =>
+      ∃ pre t, allAccept pre = true ∧ isLastAct t = true ∧
+        route sc.matcher r (sc.p16.drop 1) = pre.map mwAct ++ [t] ∧
+        (Scenario.run env sc.scenario).log =
+          [.ev 0, .ev 1, .hp] ++ (pre.map mwObs ++ lastObs env r t) ++ [.ev 2] := by
+  obtain ⟨head, rest, rh, p, q, hb, hp, hu⟩ := (accepted_iff env sc).1 hacc
+  have hrun : Scenario.run env sc.scenario = Sock.run env sc.app [.new, .feed sc.stream, .turn] := rfl
+  cases hroot : sc.root with
+  | none =>
+    simp only
+    rw [hrun]
+    apply run_ok env sc.app sc.stream hb hp hu (ops := [.err 500 none])
+    · intro s; simp [RouteScn.app, hroot]
+    · intro s1 h1 _ _ hh _
+      exact apis_500 env sc.app h1 hh
+  | some r =>
+    simp only
+    have hacts : sc.acts = some (route sc.matcher r (sc.p16.drop 1)) := by
+      simp [RouteScn.acts, serverRoute, hroot]
+    have hops : ∀ s, sc.app.onHp s = (route sc.matcher r (sc.p16.drop 1)).flatMap (RouteScn.actOps r) := by
+      intro s; simp [RouteScn.app, hroot, hacts]
+    obtain ⟨pre, hpre, ⟨t, ht, hr, _⟩ | ⟨id, hr, _⟩⟩ := route_cases sc.matcher r (sc.p16.drop 1)
+    · refine ⟨pre, t, hpre, by cases t <;> simp_all [isLastAct, isTerminalAct], hr, ?_⟩
+      rw [hrun]
+      apply run_ok env sc.app sc.stream hb hp hu hops
+      intro s1 h1 hc hre hh _
+      rw [hr]
+      exact apis_route env sc.app r h1 hc hre hh pre hpre t (by cases t <;> simp_all [isTerminalAct])
+    · refine ⟨pre, .mw id false, hpre, rfl, hr, ?_⟩
+      rw [hrun]
+      apply run_ok env sc.app sc.stream hb hp hu hops
+      intro s1 h1 hc hre hh _
+      rw [hr]
+      exact apis_route env sc.app r h1 hc hre hh pre hpre _ (by simp)
+
+/-! projections of the history -/
+
+theorem prs_append (a b : List Obs) : prs (a ++ b) = prs a ++ prs b := by simp [prs, List.filterMap_append]
+
+theorem prs_cons (o : Obs) (l : List Obs) :
+    prs (o :: l) = (match o with | .pr n p => [(n, p)] | _ => []) ++ prs l := by
+  cases o <;> simp [prs]
+
+theorem wire_cons (o : Obs) (l : List Obs) :
+    Obs.wire (o :: l) = (match o with | .w b => b | _ => []) ++ Obs.wire l := by
+  cases o <;> simp [Obs.wire]
+
+theorem prs_mwObs (pre : List (Nat × Bool)) : prs (pre.map mwObs) = [] := by
+  induction pre with
+  | nil => rfl
+  | cons e l ih => simp only [List.map_cons, prs_cons, mwObs, ih]; rfl
+
+theorem prs_wObs (b : Bytes) : prs (wObs b) = [] := by unfold wObs; split <;> rfl
+
+theorem prs_log (pre : List (Nat × Bool)) (x : List Obs) :
+    prs ([Obs.ev 0, Obs.ev 1, Obs.hp] ++ (pre.map mwObs ++ x) ++ [Obs.ev 2]) = prs x := by
+  simp only [prs_append, prs_mwObs, prs_cons]; simp [prs]
+
+theorem wire_log (pre : List (Nat × Bool)) (x : List Obs) :
+    Obs.wire ([Obs.ev 0, Obs.ev 1, Obs.hp] ++ (pre.map mwObs ++ x) ++ [Obs.ev 2]) = Obs.wire x := by
+  simp only [wire_append, wire_mwObs, wire_cons]; simp [Obs.wire]
+
+/-- the bytes of an error response: head, then the page -/
+theorem wire_err (h : Bytes) (b : Bytes) : Obs.wire ([Obs.w h] ++ wObs b ++ [Obs.tc]) = h ++ b := by
+  simp only [wire_append, wire_wObs, wire_cons]; simp [Obs.wire]
+
+theorem prs_err (h : Bytes) (b : Bytes) : prs ([Obs.w h] ++ wObs b ++ [Obs.tc]) = [] := by
+  simp only [prs_append, prs_wObs, prs_cons]; simp [prs]
+
+theorem statusOf_headOf {c : Int} (hc : 0 ≤ c) {reason : Bytes} (hr : CR ∉ reason) {hs : HeaderMap}
+    (hok : ∀ e ∈ hs, Http.EntryOk e) (body : Bytes) : statusOf (headOf c reason hs ++ body) = some c.natAbs := by
+  obtain ⟨h1, h2⟩ := parse_headOf hc hr hok body
+  unfold statusOf
+  rw [h1]
+  simp only
+  rw [h2]
+  rfl
+
+theorem errHeaders_nil_ok (n : Nat) : ∀ e ∈ errHeaders [] n, Http.EntryOk e := by
+  rw [errHeaders_nil]
+  intro e he
+  simp at he
+  rcases he with rfl | rfl
+  · exact entryOk_cl n
+  · exact entryOk_ct
+
+theorem encodeLoc_no_CR (loc : QStr) : CR ∉ encodeLoc loc := fun h => (encodeLoc_clean loc _ h).2.1 rfl
+
+/-- **C05.5 (`holds_run`)**: for every environment and every `route` scenario — every handler
+    tree, matcher, verdict assignment, request target — whose redirect captures are marker-free
+    (`routeMF`; otherwise known finding D12), the predicate evaluated on implementation traces
+    holds on the run of the model.  (Requests that are not accepted, runs in which a middleware
+    refuses and trees outside the documented domain make `holds` true by definition.) -/
+theorem holds_run (env : Env) (sc : RouteScn)
+    (hmf : ∀ r, sc.root = some r → routeMF sc.matcher r (sc.p16.drop 1) = true) :
+    holds env sc (Scenario.run env sc.scenario).log = true := by
+  unfold holds
+  cases hacc : accepted env sc with
+  | false => rfl
+  | true =>
+    simp only [Bool.not_true, Bool.false_eq_true, if_false]
+    have hlog := run_log env sc hacc
+    cases hroot : sc.root with
+    | none =>
+      rw [hroot] at hlog
+      simp only at hlog ⊢
+      rw [hlog]
+      have h0 := wire_log [] ([Obs.w (headOf 500 (statusReason 500) (errHeaders [] (env.errPage 500 (statusReason 500)).length))] ++
+            wObs (env.errPage 500 (statusReason 500)) ++ [Obs.tc])
+      have p0 := prs_log [] ([Obs.w (headOf 500 (statusReason 500) (errHeaders [] (env.errPage 500 (statusReason 500)).length))] ++
+            wObs (env.errPage 500 (statusReason 500)) ++ [Obs.tc])
+      simp only [List.map_nil, List.nil_append] at h0 p0
+      rw [h0, p0, wire_err, prs_err, statusOf_headOf (by decide) (by decide) (errHeaders_nil_ok _)]
+      rfl
+    | some r =>
+      rw [hroot] at hlog
+      obtain ⟨pre, t, hpre, hlast, hr, hlog⟩ := hlog
+      have hacts : sc.acts = some (route sc.matcher r (sc.p16.drop 1)) := by
+        simp [RouteScn.acts, serverRoute, hroot]
+      simp only [hacts]
+      cases hterm : terminal (route sc.matcher r (sc.p16.drop 1)) with
+      | none => rfl
+      | some t0 =>
+        simp only
+        cases hspec : specRoute sc.matcher r (sc.p16.drop 1) with
+        | none => rfl
+        | some t' =>
+          have hno : noRefusal (route sc.matcher r (sc.p16.drop 1)) = true := by
+            rw [← (route_terminal_count _ _ _).2.2.2, hterm]; rfl
+          have ht' := route_eq_spec _ _ _ _ hno hspec (hmf r hroot)
+          have htt : t = t' := by
+            have hT : isTerminalAct t = true := by
+              cases t with
+              | mw i ok =>
+                have ok' : ok = false := by simpa [isLastAct] using hlast
+                subst ok'
+                have e : pre.map mwAct ++ [Act.mw i false] = (pre ++ [(i, false)]).map mwAct := by simp [mwAct]
+                rw [hr, e, terminal_map_mwAct] at hterm
+                cases hterm
+              | redirect _ _ => rfl
+              | process _ _ => rfl
+            rw [hr, terminal_append_single _ _ hT] at ht'
+            exact Option.some.inj ht'
+          subst htt
+          rw [hlog, wire_log, prs_log]
+          cases t with
+          | mw i ok => rfl
+          | process id path =>
+            simp only [lastObs, prs_cons, wire_cons, List.nil_append]
+            by_cases hown : (RouteScn.ownOf r id).getD false = true
+            · simp only [hown, if_true]
+              rw [wire_err, prs_err, statusOf_headOf (by decide) (by decide) (by simp)]
+              simp
+            · simp only [hown, Bool.false_eq_true, if_false]
+              rw [wire_err, prs_err, statusOf_headOf (by decide) (by decide) (errHeaders_nil_ok _)]
+              simp
+          | redirect id loc =>
+            obtain ⟨h1, h2⟩ := parse_headOf (c := 302) (by decide) (reason := statusReason 302) (by decide)
+              (hs := [(LOC, encodeLoc loc)])
+              (by intro e he; simp at he; subst he; exact entryOk_loc (encodeLoc_no_CR loc)) []
+            have hw : Obs.wire (lastObs env r (.redirect id loc)) =
+                headOf 302 (statusReason 302) [(LOC, encodeLoc loc)] ++ [] := by
+              simp only [lastObs, wire_cons]; simp [Obs.wire]
+            have hp : prs (lastObs env r (.redirect id loc)) = [] := by
+              simp only [lastObs, prs_cons]; simp [prs]
+            simp only
+            rw [hw, hp, h1]
+            simp only [h2]
+            simp [LOCATION, LOC]
+
+/-! ### the side condition in syntactic form -/
+
+mutual
+  /-- every redirect template of the tree has separated markers (`Separated`) -/
+  def treeSeparated : Node → Bool
+    | .mk _ _ reds subs _ => reds.all (fun r => Separated r.2) && subsSeparated subs
+  def subsSeparated : Subs → Bool
+    | .nil => true
+    | .cons _ child rest => treeSeparated child && subsSeparated rest
+end
+
+/-- every captured text the matcher ever returns is `Plain` (no marker inside, not ending in
+    `%` / `%L`, see `plain_iff`) -/
+def PlainMatcher (m : Matcher) : Prop :=
+  ∀ pat subject mt, m pat subject = some mt → ∀ a ∈ mt.caps, Plain a = true
+
+theorem redirMF_of_plain {m : Matcher} (hm : PlainMatcher m) (path : QStr) (reds : List (Nat × QStr))
+    (h : reds.all (fun r => Separated r.2) = true) : redirMF m path reds = true := by
+  induction reds with
+  | nil => rfl
+  | cons r l ih =>
+    obtain ⟨pat, tmpl⟩ := r
+    simp only [List.all_cons, Bool.and_eq_true] at h
+    simp only [redirMF]
+    cases hp : m pat path with
+    | none => exact ih h.2
+    | some mt => exact markerFree_of_separated h.1 (hm pat path mt hp)
+
+mutual
+  theorem routeMF_of_plain {m : Matcher} (hm : PlainMatcher m) : ∀ (n : Node) (path : QStr),
+      treeSeparated n = true → routeMF m n path = true
+    | .mk id mws reds subs own, path => by
+      rw [treeSeparated, routeMF, Bool.and_eq_true]
+      rintro ⟨h1, h2⟩
+      split
+      · exact redirMF_of_plain hm path reds h1
+      · exact subsMF_of_plain hm subs path h2
+  theorem subsMF_of_plain {m : Matcher} (hm : PlainMatcher m) : ∀ (s : Subs) (path : QStr),
+      subsSeparated s = true → subsMF m s path = true
+    | .nil, path => by simp [subsMF]
+    | .cons pat child rest, path => by
+      rw [subsSeparated, subsMF, Bool.and_eq_true]
+      rintro ⟨h1, h2⟩
+      cases m pat path with
+      | none => exact subsMF_of_plain hm rest path h2
+      | some mt => exact routeMF_of_plain hm child _ h1
+end
+
+/-- `holds_run` with the syntactic side condition: separated templates, plain captures -/
+theorem holds_run_of_plain (env : Env) (sc : RouteScn) (hm : PlainMatcher sc.matcher)
+    (ht : ∀ r, sc.root = some r → treeSeparated r = true) :
+    holds env sc (Scenario.run env sc.scenario).log = true :=
+  holds_run env sc fun r hr => routeMF_of_plain hm r _ (ht r hr)
+
 /-! ### non-vacuity and the excluded points (all evaluated in the kernel) -/
 
 namespace Ex
@@ -564,6 +826,35 @@ example : substitute (q ['/','%','2','%','1']) [q ['3'], q ['x']] = q ['/','x'] 
 -- `MarkerFree` (the exact, semantic condition) separates the cases above
 example : MarkerFree (q ['/','%','1','/','%','2']) [q ['a','%','2'], q ['x']] = false ∧
     MarkerFree (q ['/','%','1','/','%','2']) [q ['a','%'], q ['2']] = true := by decide
+
+/-! `holds` on concrete runs of the model (the hypotheses of `holds_run` are satisfiable and the
+    predicate is not trivially true there: accepted request, all middleware accept, inside the
+    documented domain) -/
+def envX : Env := { url := fun t => some (t, []), errPage := fun _ _ => [33] }
+/-- GET /a/a/b/c (redirect at depth 3), the three-level tree; `ok`: verdict of middleware 11 -/
+def scEx (ok : Bool) : RouteScn :=
+  { root := some (root ok true), matcher := toyM, raw := lit ['/','a','/','a','/','b','/','c'], p16 := 47 :: path }
+/-- GET /a/zz: own processing of the inner node (default 404) -/
+def scPr : RouteScn :=
+  { root := some (root true true), matcher := toyM, raw := lit ['/','a','/','z','z'], p16 := [47, 97, 47, 122, 122] }
+def scNoRoot : RouteScn := { scPr with root := none }
+
+example : treeSeparated (root true true) = true := by decide
+example : PlainMatcher (fun _ _ => some ⟨0, 0, [[120, 37, 37, 121], []]⟩) := by
+  intro pat s mt h a ha
+  cases h
+  simp at ha
+  rcases ha with rfl | rfl <;> decide
+example : accepted envX (scEx true) = true ∧ routeMF toyM (root true true) path = true ∧
+    (terminal (route toyM (root true true) path)).isSome = true ∧
+    (specRoute toyM (root true true) path).isSome = true := by decide +kernel
+example : holds envX (scEx true) (Scenario.run envX (scEx true).scenario).log = true := by decide +kernel
+example : terminal (route toyM (root true true) [97, 47, 122, 122]) = some (.process 1 [122, 122]) := by decide
+example : holds envX scPr (Scenario.run envX scPr.scenario).log = true := by decide +kernel
+example : holds envX scNoRoot (Scenario.run envX scNoRoot.scenario).log = true := by decide +kernel
+/-- … and it does reject a wrong history: the same run with the response bytes removed -/
+example : holds envX (scEx true)
+    ((Scenario.run envX (scEx true).scenario).log.filter fun o => !Obs.isW o) = false := by decide +kernel
 end Ex
 
 end Qhttp.C05
